@@ -679,6 +679,8 @@ def monitor(case, obs):
         return f"output info has an unset field after connect: {o}"
     if o["time"] is None and not static:
         return "output time unset on a non-static link"
+    if static and o["time"] != out_decl["time"]:
+        return f"static output changed its time from {out_decl['time']} to {o['time']}"
     if out_decl["grid"] is not None and o["grid"] != GSPEC[out_decl["grid"]]:
         return "declared producer grid changed"
     if out_decl["mask"] is not None and o["mask"] != out_decl["mask"]:
@@ -987,6 +989,10 @@ CORPUS = [
     _case(_I(units="mm/d"), [(_I(units="m"), [["sum", True]]), (_I(units="m"), [["avg"]])], early=True),
     # static link with unset time on both sides
     _case(_I(time=None), [(_I(time=None), []), (_I(time=5), [])], static=True),
+    # F22 (fixed): a static output never adopts the requester's time; the input keeps its own stated time
+    _case(_I(time=None), [(_I(time=5), [])], static=True),
+    _case(_I(time=None), [(_I(time=5), [["scale"]]), (_I(time=None), [])], static=True),
+    _case(_I(time=7), [(_I(time=5), []), (_I(time=None), [])], static=True),
     # producer info never pushed
     _case(None, [(_I(), [])]),
 ]
